@@ -313,7 +313,10 @@ class Impl:
             f = getattr(self, "c_" + cmd.replace(".", "_"))
         except AttributeError:
             return "bad-op"
-        return f(t[1:])
+        try:
+            return f(t[1:])
+        except Exception as e:        # an exception escaping the real code where the protocol expects an answer
+            return f"X {type(e).__name__}"
 
     # -- replacement ----------------------------------------------------------------------------
     def c_repl_new(self, a):
